@@ -511,6 +511,8 @@ REVIEWED = {
         "`buf[0..n]` with n returned by Read::read(&mut buf): std's Read contract guarantees n <= buf.len() (dependency contract)",
     ("crypto::PrivateKey::rsa_from_pkcs8", "assert overflow Mul"):
         "`modulus_len() * 8`: ring only accepts RSA keys of at most 8192 bits, so the product is < 2^16",
+    ("runlib::dir_entry_to_path", "unwrap on Result<String, OsString>"):
+        "PathBuf produced by path_clean::clean from a String (both arms above build `path: String`): into_string cannot fail for UTF-8 input",
     ("rulelib::canonicalize_path", "unwrap on Result<String, OsString>"):
         "PathBuf produced by path_clean::clean from a &str: into_string cannot fail for UTF-8 input",
     ("rulelib::verify_match_rule", "index on &BTreeMap<VirtualTargetPath, HashMap<HashAlgorithm, HashValue>> by &VirtualTargetPath"):
